@@ -618,7 +618,8 @@ func (fc *FontConfigurationGotext) splitFirstLine(hyphenCache map[HyphenDictKey]
 
 	var startWord, stopWord int
 	if hyphens == HAuto && lang != "" {
-		nextWordBoundaries := fc.wordBoundaries(nextWord)
+		// (as in the pango engine: the boundaries index secondLineText below)
+		nextWordBoundaries := fc.wordBoundaries(secondLineText)
 		if nextWordBoundaries != nil {
 			// We have a word to hyphenate
 			startWord, stopWord = nextWordBoundaries[0], nextWordBoundaries[1]
